@@ -63,6 +63,17 @@ SKELETONS = [
 ]
 
 
+# skeletons with few time symbols, also snapshotted through the SignificantTimes cache (sorting forks on every pairwise order)
+SKELETONS_CACHED = [
+  ("cached-unbounded-then-bounded", [], ["body", "", [["div", "", [["p", "b", [S("A", "")]], ["p", "b e", [S("B", "")]]]]]]),
+  ("cached-bounded-then-unbounded", [], ["body", "", [["div", "", [["p", "b e", [S("A", "")]], ["p", "b", [S("B", "")]]]]]]),
+  ("cached-timed-region", [["r1", "b e"]], ["body", "", [["div", "r=r1", [["p", "b e", [S("A", "")]]]]]]),
+  ("cached-two-regions", [["r1", ""], ["r2", "b e"]], ["body", "", [["div", "r=r1", [["p", "e", [S("A", "")]]]], ["div", "r=r2", [["p", "", [S("B", ""), ["br", ""]]]]]]]),
+  ("cached-nested-clip", [["r1", ""]], ["body", "e", [["div", "r=r1 b", [["p", "e", [S("A", "b")]]]]]]),
+  ("cached-display-animation", [], ["body", "", [["div", "", [["p", "b e a", [S("A", "")]]]]]]),
+]
+
+
 def content_assertions(ex, info, isd, t, prefix="C01"):
   """compare the observed snapshot with R-ISD under the current path condition"""
   obs = oracles.isd_leaves(isd)
@@ -127,11 +138,14 @@ class IsdContentHarness(Harness):
 
   def partitions(self, tier):
     parts = [{"skel": i} for i in range(len(SKELETONS))]
+    parts += [{"cskel": i, "cached": True} for i in range(len(SKELETONS_CACHED))]
     if tier == "thorough":
       parts += [{"gen": i} for i in range(len(family()))]
     return parts
 
   def skeleton(self, params):
+    if "cskel" in params:
+      return SKELETONS_CACHED[params["cskel"]]
     if "skel" in params:
       return SKELETONS[params["skel"]]
     return family()[params["gen"]]
@@ -141,7 +155,15 @@ class IsdContentHarness(Harness):
     info = docgen.build(ex, skel, regions)
     info.tags.add(name)
     t = ex.real("t", 0)
-    isd, exc = call(ex, ISD.from_model, info.doc, t)
+    if params.get("cached"):
+      sig, exc = call(ex, ISD.significant_times, info.doc)
+      if exc:
+        ex.fail("C18:significant-times-raises", {"site": exc[1], "exc": type(exc[0]).__name__, "tags": sorted(info.tags)})
+        return
+      info.tags.add("cached")
+      isd, exc = call(ex, ISD.from_model, info.doc, t, sig)
+    else:
+      isd, exc = call(ex, ISD.from_model, info.doc, t)
     if exc:
       ex.outcome("exception")
       ex.fail("C18:snapshot-raises", {"site": exc[1], "exc": type(exc[0]).__name__, "tags": sorted(info.tags)})
